@@ -223,6 +223,95 @@ let run_page (id : ostring) (body : Sx.t list) : ostring =
     if m = g then "OK " ^ id ^ " 1" else Printf.sprintf "MISMATCH %s 0 page model=%s go=%s" id m g
   | _ -> "BADCASE " ^ id
 
+(* ------------------------------------------------------------------ neighborhood (C17) *)
+let run_nb (id : ostring) (body : Sx.t list) : ostring =
+  match body with
+  | [ L [A "env"; host; hport; mx; L seeds]; L (A "split" :: sp); L (A "resolve" :: rs); L (A "ops" :: ops) ] ->
+    let spt = Hashtbl.create 32 and rst = Hashtbl.create 32 in
+    List.iter (fun x -> match lst x with
+      | [tv; A "fail"] -> Hashtbl.replace spt (str tv) None
+      | [tv; ip; port] -> Hashtbl.replace spt (str tv) (Some (cstr_of_sx ip, cstr_of_sx port))
+      | _ -> raise (Parse "split")) sp;
+    List.iter (fun x -> match lst x with
+      | [ip; port; A "fail"] -> Hashtbl.replace rst (str ip, str port) None
+      | [ip; port; t] -> Hashtbl.replace rst (str ip, str port) (Some (cstr_of_sx t))
+      | _ -> raise (Parse "resolve")) rs;
+    let split_hp tv = match Hashtbl.find_opt spt (ostr tv) with Some v -> v | None -> raise (Oracle_miss ("split " ^ ostr tv)) in
+    let resolve ip port = match Hashtbl.find_opt rst (ostr ip, ostr port) with Some v -> v | None -> raise (Oracle_miss ("resolve " ^ ostr ip)) in
+    let hostc = cstr_of_sx host and hportc = cstr_of_sx hport in
+    let maxz = cz_of_sx mx in
+    let seedm = List.map (fun x -> match lst x with [tv; sc] -> (cstr_of_sx tv, cz_of_sx sc) | _ -> raise (Parse "seed")) seeds in
+    let scores = ref [] in
+    let k = ref 0 and mism = ref None in
+    (try
+      List.iter (fun op ->
+        if !mism = None then begin
+          (match lst op with
+           | [A "add"; L ts] -> scores := add_targets split_hp hportc !scores (List.map cstr_of_sx ts)
+           | [A "inc"; t] -> scores := incentive !scores (cstr_of_sx t)
+           | [A "sync"; L outs; L fans] ->
+             let m = known seedm !scores in
+             let order = List.map fst m in
+             let outl = List.map cstr_of_sx outs in
+             if not (admissible_outbounds split_hp resolve hostc m order maxz outl) then
+               mism := Some (!k, "selected outbounds [" ^ String.concat "," (List.map str outs) ^ "] are not an admissible result of the selection")
+             else begin
+               let r = reachable split_hp resolve hostc m order in
+               List.iter (fun f -> match lst f with
+                 | [q; L sent] ->
+                   let want = List.sort compare (List.map ostr (fanout hostc r (cstr_of_sx q))) in
+                   let got = List.sort compare (List.map str sent) in
+                   if want <> got && !mism = None then
+                     mism := Some (!k, Printf.sprintf "peer %s was sent [%s], model [%s]" (str q) (String.concat "," got) (String.concat "," want))
+                 | _ -> raise (Parse "fan")) fans
+             end;
+             scores := []
+           | _ -> raise (Parse "nb op"));
+          incr k
+        end) ops;
+      match !mism with
+      | None -> Printf.sprintf "OK %s %d" id !k
+      | Some (i, d) -> Printf.sprintf "MISMATCH %s %d %s" id i d
+    with Oracle_miss m -> Printf.sprintf "ORACLEMISS %s %d %s" id !k m)
+  | _ -> "BADCASE " ^ id
+
+(* ------------------------------------------------------------------ access node (C18, C19) *)
+let run_wallet (id : ostring) (body : Sx.t list) : ostring =
+  match body with
+  | [fee; cons; amount; L hold; got] ->
+    let hs = List.map (fun x -> match lst x with
+      | [t; i; v] -> ((cstr_of_sx t, n_of_sx i), n_of_sx v) | _ -> raise (Parse "holding")) hold in
+    let m = match tx_info (n_of_sx fee) (bool_of_sx cons) (n_of_sx amount) hs with
+      | Info405 -> "405"
+      | InfoOk (rest, ins) -> Printf.sprintf "(ok %s (%s))" (show_n rest)
+                                (String.concat " " (List.map (fun (t, i) -> Printf.sprintf "(%s %s)" (show_str (ostr t)) (show_n i)) ins))
+      | InfoPanic -> "PANIC" | InfoFuel -> "FUEL" in
+    let rec show = function A a -> show_str (atom_string a) | L l -> "(" ^ String.concat " " (List.map show l) ^ ")" in
+    let g = show got in
+    if m = g then "OK " ^ id ^ " 1" else Printf.sprintf "MISMATCH %s 0 info model=%s go=%s" id m g
+  | _ -> "BADCASE " ^ id
+
+let run_amount (id : ostring) (body : Sx.t list) : ostring =
+  match body with
+  | [L vals; got] ->
+    let m = show_n (wallet_amount (List.map n_of_sx vals)) in
+    if m = str got then "OK " ^ id ^ " 1" else Printf.sprintf "MISMATCH %s 0 amount model=%s go=%s" id m (str got)
+  | _ -> "BADCASE " ^ id
+
+let run_progress (id : ostring) (body : Sx.t list) : ostring =
+  match body with
+  | [searched; utxos; first; blocks; pool; got] ->
+    let opt f = function A "none" -> None | x -> Some (f x) in
+    let refp x = match lst x with [t; i] -> (cstr_of_sx t, n_of_sx i) | _ -> raise (Parse "ref") in
+    let p = progress_of (opt refp searched) (opt (fun x -> List.map refp (lst x)) utxos) (opt cz_of_sx first)
+        (opt (fun x -> List.map (fun b -> List.map cstr_of_sx (lst b)) (lst x)) blocks)
+        (opt (fun x -> List.map cstr_of_sx (lst x)) pool) in
+    let m = match p with
+      | PConfirmed -> "confirmed" | PValidated -> "validated" | PSent -> "sent" | PRejected -> "rejected"
+      | PError c -> "error" ^ show_n c in
+    if m = str got then "OK " ^ id ^ " 1" else Printf.sprintf "MISMATCH %s 0 progress model=%s go=%s" id m (str got)
+  | _ -> "BADCASE " ^ id
+
 (* ------------------------------------------------------------------ main *)
 let () =
   let file = Sys.argv.(1) in
@@ -234,6 +323,10 @@ let () =
         | L (A "clockcase" :: A id :: body) -> run_clock id body
         | L (A "nodecase" :: A id :: body) -> run_node id body
         | L (A "pagecase" :: A id :: body) -> run_page id body
+        | L (A "nbcase" :: A id :: body) -> run_nb id body
+        | L (A "walletcase" :: A id :: body) -> run_wallet id body
+        | L (A "amountcase" :: A id :: body) -> run_amount id body
+        | L (A "progresscase" :: A id :: body) -> run_progress id body
         | L (A kind :: A id :: _) -> "BADKIND " ^ kind ^ " " ^ id
         | _ -> "BADITEM"
       with
